@@ -1,5 +1,6 @@
 import HqModel.Lemmas.JobState
 import HqModel.Lemmas.IntArray
+import HqModel.Lemmas.JobCompleted
 /-!
 # C13 — job bookkeeping: counters match tasks, atomic submits, status rules
 
@@ -120,5 +121,55 @@ example :
 
 example : (State.submit {} (some 7) none (.array [⟨0, 1, 1⟩] none)).toOption.map (fun r => r.2.2.1)
     = some SubmitResp.jobNotFound := by decide
+
+/-! ### history form: `JobCompleted` is emitted exactly once, exactly when the job terminates -/
+
+/-- **A job is reported completed exactly once, exactly when it is closed and all its tasks are terminal,
+never before.** For ALL operation sequences `ops` in which no submit creates a new job without tasks
+(`NoEmptySubmit`: every `.submit none _ d` has `d.nonEmpty`; submits into existing jobs are unrestricted) and
+every run from the empty server state that does not stop with a panic, with `evs` = all events of the run:
+
+* no job id — also of jobs forgotten meanwhile — has more than one `jobCompleted` event;
+* for every job still stored, `jobCompleted` occurs once if the job is closed and has no active task and not
+  at all otherwise; and "no active task" (the counters) says that every task of the job is terminal;
+* *never before*: the same holds at every earlier moment — after every prefix `ops1` of the run, with `e1` the
+  events emitted so far (a prefix of `evs`), a stored job that is still open or still has a waiting / running
+  task has no `jobCompleted` event in `e1`, a terminated one has exactly one.
+
+The hypothesis cannot be dropped: see the `example` below (`submit` of an array with `entries = Some(0)`
+creates a closed job without tasks that is terminated from the start and never reported). -/
+theorem c13_completed_once (ops : List Op) (hne : NoEmptySubmit ops = true) (s : State) (evs : List Ev)
+    (h : run {} ops = .ok (s, evs)) :
+    (∀ j, evs.count (Ev.jobCompleted j) ≤ 1) ∧
+    (∀ job ∈ s.jobs,
+      evs.count (Ev.jobCompleted job.id) = (if !job.isOpen && job.hasNoActiveTasks then 1 else 0) ∧
+      (job.hasNoActiveTasks = true ↔ ∀ p ∈ job.tasks, p.2.terminal = true)) ∧
+    (∀ ops1 ops2, ops = ops1 ++ ops2 → ∃ s1 e1 e2, run {} ops1 = .ok (s1, e1) ∧ evs = e1 ++ e2 ∧
+      ∀ job ∈ s1.jobs,
+        e1.count (Ev.jobCompleted job.id) = (if !job.isOpen && job.hasNoActiveTasks then 1 else 0)) := by
+  have hc := run_completed hne h
+  have wf := run_wf ops init_wf h
+  refine ⟨hc.1, fun job hj => ⟨hc.2 job hj, hasNoActive_iff (wf.jobs job hj)⟩, ?_⟩
+  intro ops1 ops2 hsplit
+  subst hsplit
+  obtain ⟨s1, e1, e2, h1, _, he⟩ := run_append ops1 ops2 h
+  exact ⟨s1, e1, e2, h1, he, (run_completed (NoEmptySubmit_append hne) h1).2⟩
+
+/-- non-vacuity of `c13_completed_once`: open job 1, submit tasks 0,1, close (no completion yet: both tasks
+are active), start and finish task 0, fail task 1: the run satisfies the hypotheses, `jobCompleted 1` occurs
+exactly once and it is the last event. -/
+example :
+    let ops : List Op := [.openJob none, .submit (some 1) none (.array [⟨0, 2, 1⟩] none), .close 1,
+      .started (1, 0) 0 [1] 0, .finished (1, 0), .failed (1, 1) []]
+    NoEmptySubmit ops = true ∧
+    (run {} ops).toOption.map (fun r => (r.2.count (Ev.jobCompleted 1), r.2.getLast?, r.1.jobs.map (·.isTerminated)))
+      = some (1, some (Ev.jobCompleted 1), [true]) := by decide
+
+/-- the hypothesis of `c13_completed_once` is needed: a submit with `entries = Some(0)` and no ids creates
+a closed job without tasks; it is terminated but `JobCompleted` is never emitted for it. -/
+example :
+    (run {} [.submit none none (.array [] (some 0))]).toOption.map
+      (fun r => (r.2.count (Ev.jobCompleted 1), r.1.jobs.map (·.isTerminated)))
+    = some (0, [true]) := by decide
 
 end HqModel.C13
